@@ -321,6 +321,23 @@ def _retry_unknown(ob):
             ob.status = "discharged"
             ob.detail += " | retry without %d quantifier-alternating assumptions: unsat" % (len(ob.pc) - len(slim))
             return
+    # (d) the same query in a FRESH z3 context: instantiation heuristics depend on the order in which terms were created in the
+    # long-lived context of a worker (a query that is instant on its own can time out after hundreds of others); the answer to the
+    # translated query is an answer to the same query
+    try:
+        c2 = z3.Context()
+        s = z3.Solver(ctx=c2)
+        s.set("timeout", Z3_TIMEOUT_MS)
+        for f in ob.pc:
+            s.add(f.translate(c2))
+        s.add(z3.Not(ob.goal).translate(c2))
+        r = s.check()
+        if r == z3.unsat:
+            ob.status = "discharged"
+            ob.detail += " | retry in a fresh solver context: unsat"
+            return
+    except z3.Z3Exception:
+        pass
     lens = z3.Const("H_$len", IntArr)
     x = z3.Int("bx")
     attempts = [("seed=11", None, 11), ("len<=1", z3.ForAll([x], z3.Select(lens, x) <= 1), 0), ("len<=2", z3.ForAll([x], z3.Select(lens, x) <= 2), 0), ("seed=23", None, 23)]
@@ -409,6 +426,77 @@ def bounded_refutation(E, con, fi, obs, bound=2):
                 ob.detail += " | refuted in bounded mode (sequences of at most %d items, quantifiers expanded): sat" % bound
                 ob.meta["bounded_refutation"] = bound
                 break
+
+
+def empty_sets_refutation(obs):
+    """Refutation of set-sum obligations the solver leaves `unknown` (their path conditions carry the set-sum axioms - quantified over
+    ALL membership and field arrays - for which z3 cannot build a model).  Candidate interpretation: EVERY set of objects mentioned on
+    the path is empty and every ground ssum / scard term is 0.  The query is the path condition WITHOUT the set-sum axioms, plus the
+    candidate, plus the negated goal; the remaining quantified assumptions (representation invariants, frame facts) are within
+    reach of z3's model-based instantiation.  `sat` is a genuine counter-model: read ssum / scard as the true sum / cardinality -
+    they are 0 on the empty sets, exactly what the candidate fixed for every ground term, and the axioms are theorems about them
+    (lean/SetSum.lean) - and the whole path condition holds while the goal fails."""
+    from . import setsum as SS
+
+    def is_axiom(q):
+        # the axioms of pyvc/setsum.py bind variables named ax_*
+        return z3.is_quantifier(q) and q.num_vars() > 0 and all(q.var_name(i).startswith("ax_") for i in range(q.num_vars()))
+
+    def ground_terms(es):
+        mems, sums, seen = {}, {}, set()
+
+        def walk(e, bound):
+            if z3.is_quantifier(e):
+                walk(e.body(), True)
+                return
+            if not z3.is_app(e):
+                return
+            k = (e.get_id(), bound)
+            if k in seen:
+                return
+            seen.add(k)
+            for ch in e.children():
+                walk(ch, bound)
+            if bound and _has_var(e):
+                return
+            if e.sort() == SS.MemSort:
+                mems[e.get_id()] = e
+            if e.decl().name() in ("ssum", "scard"):
+                sums[e.get_id()] = e
+        for e in es:
+            walk(e, False)
+        return list(mems.values()), list(sums.values())
+
+    for ob in obs:
+        if ob.status != "undecided":
+            continue
+        axioms = [p for p in ob.pc if is_axiom(p)]
+        if not axioms:
+            continue
+        rest = [p for p in ob.pc if not is_axiom(p)]
+        mems, sums = ground_terms(list(ob.pc) + [ob.goal])
+        cand = [m == SS.EMPTY for m in mems] + [t == 0 for t in sums]
+        s = z3.Solver()
+        s.set("timeout", 2 * Z3_TIMEOUT_MS)
+        s.add(*rest)
+        s.add(*cand)
+        s.add(z3.Not(ob.goal))
+        if s.check() == z3.sat:
+            ob.status = "refuted"
+            ob.model = s.model()
+            ob.detail += (" | refuted with the candidate interpretation 'every set of objects on this path is empty' (path condition without the set-sum axioms + candidate "
+                          "+ negated goal: sat; the axioms are theorems about the true sum, which is 0 on empty sets as the candidate fixes it)")
+            ob.meta["empty_sets_refutation"] = True
+
+
+def _has_var(e):
+    if z3.is_var(e):
+        return True
+    if z3.is_app(e):
+        return any(_has_var(c) for c in e.children())
+    if z3.is_quantifier(e):
+        return _has_var(e.body())
+    return False
 
 
 def witness_cover(E, con):
@@ -539,6 +627,8 @@ def verify_contract(E, con, thorough=False):
         discharge(ob, thorough)
     if any(ob.status == "undecided" for ob in obs):
         bounded_refutation(E, con, fi, obs)
+    if any(ob.status == "undecided" for ob in obs):
+        empty_sets_refutation(obs)
     obs.extend(static_obligations(E, con))
     res.seconds = time.time() - t0
     res.inlined = sorted(E.inlined)
@@ -605,7 +695,11 @@ def differential(E, con, fi, max_paths=64):
                 if conc.inexact:
                     stats["inexact"] += 1
                 mism = _compare(E, ctx, I, m, conc, out, kind, value, tr_old, con)
-                if mism:
+                if mism and conc.inexact:
+                    # the model's real-valued inputs are not exactly representable as doubles: the concrete run starts from ROUNDED
+                    # inputs, and a discontinuous operation (floor division) may then land on the other side - not comparable
+                    stats["inexact_not_compared"] = stats.get("inexact_not_compared", 0) + 1
+                elif mism:
                     stats["mismatches"].append({"path": ctx.path_label, "decisions": ctx.decisions, "inputs": out["inputs"], "what": mism})
                 else:
                     stats["validated"] += 1
